@@ -12,6 +12,7 @@ package main
 
 import (
 	"fmt"
+	"go/ast"
 	"strings"
 )
 
@@ -214,6 +215,48 @@ func c18hGenHuff() (string, error) {
 	if err := run(c18hNewTr(dir), h, []item{{"buildRootHuffmanNode: required table size", "tableLen", "", "", "int", "int"}}); err != nil {
 		return "", err
 	}
+	// huffmanCodes / huffmanCodeLen are arrays of one length, every element written out
+	tf, err := parse(dir + "/tables.go")
+	if err != nil {
+		return "", err
+	}
+	arrLen := map[string]int64{}
+	for _, d := range tf.Decls {
+		gd, ok := d.(*ast.GenDecl)
+		if !ok {
+			continue
+		}
+		for _, sp := range gd.Specs {
+			vs, ok := sp.(*ast.ValueSpec)
+			if !ok || len(vs.Names) != 1 || len(vs.Values) != 1 {
+				continue
+			}
+			if n := vs.Names[0].Name; n == "huffmanCodes" || n == "huffmanCodeLen" {
+				cl, ok := vs.Values[0].(*ast.CompositeLit)
+				if !ok {
+					return "", fmt.Errorf("%s is not a composite literal", n)
+				}
+				at, ok := cl.Type.(*ast.ArrayType)
+				if !ok || at.Len == nil {
+					return "", fmt.Errorf("%s is not an array", n)
+				}
+				l, ok := evalInt(at.Len)
+				if !ok || int(l) != len(cl.Elts) {
+					return "", fmt.Errorf("%s: array length and number of elements differ", n)
+				}
+				for _, e := range cl.Elts {
+					if _, isKV := e.(*ast.KeyValueExpr); isKV {
+						return "", fmt.Errorf("%s: keyed element", n)
+					}
+				}
+				arrLen[n] = l
+			}
+		}
+	}
+	if arrLen["huffmanCodes"] == 0 || arrLen["huffmanCodes"] != arrLen["huffmanCodeLen"] {
+		return "", fmt.Errorf("huffmanCodes / huffmanCodeLen: array lengths %d / %d", arrLen["huffmanCodes"], arrLen["huffmanCodeLen"])
+	}
+	s += fmt.Sprintf("/-- tables.go: `huffmanCodes` and `huffmanCodeLen` are arrays of this length, every element written out -/\ndef tableArrayLen : Nat := %d\n", arrLen["huffmanCodes"])
 
 	// --- huffmanDecode(buf, maxLen int, v []byte)
 	h, err = match("huffmanDecode", c18hDecode)
